@@ -33,6 +33,19 @@ Part C2 several includers: c10m.h in every non-empty subset of {src, src/la, src
         <= 2 steps over these 10 steps + every script of 3 quote-form steps from {primary, la, lb, d1} (thorough: every
         script of <= 3 steps).  Each lookup must depend on (spelling, form, directory of the file containing the
         directive) only - never on earlier lookups; units with an unresolvable step must be rejected.
+Part C3 directives that change the PRESUMED position before an inclusion (6.10.4: #line changes the presumed line number
+        and file NAME only; the FILE a later #include / #pragma once refers to is that of the real file).  Step = (file
+        holding the directive: primary gen/main.c | nested header on no search path | nested header found through -I) x
+        presumption line {none, #line 7 "src/y.y" (directory exists, may hold a same-named header), "nowhere/y.y" (no
+        such directory), "y.y" (bare: the compiler's cwd), absolute, `# 7 "src/y.y"` / `# 7 "nowhere/y.y"` line markers,
+        #line MACRO, #line 7 "d1/c10p.h" (an existing header), #line 7} x {#include "", <>, #include_next "", <>}: 80
+        steps; EVERY script of <= 2 steps (a #line in the primary file stays in force) x c10p.h in 6 (thorough: all 64)
+        subsets of {primary's dir, nested includer's dir, dir named by #line, -I dirs, compiler's cwd} (+ always in the
+        last -I directory, so a wrong lookup shows as a wrong file) x 2 configurations (cwd = tree root | sibling
+        directory, every path through `../`): 77 760 cases quick, 829 440 thorough, batched 150 per process, deviating
+        cases re-run alone and once more without any #line (control).  Second family: a header with [#line / marker
+        naming the sibling header's path exactly as the compiler spells it | bare | absolute | `./`-prefixed | elsewhere]
+        before or after its #pragma once / in front of its guard x every script of <= 4 inclusions over the two headers.
 Part D  re-inclusion shortcuts: 1752 file shapes over {leading text, #ifndef G | #if !defined G | #if !defined(G),
         #define G | none | other, nested conditionals in the body, the guard's own #else/#elif, trailing text /
         second conditional, #pragma once at top / inside / end} x 24 include scripts (2-3 inclusions, G kept /
@@ -57,9 +70,23 @@ Part D2 re-inclusion shortcuts x PATH SPELLING (which file a #pragma once / a de
         both are included, always judged; (a) the same file through the same reference: #pragma once suppresses;
         through another spelling with #pragma once only: implementation-defined, included once or twice both
         accepted; guarded / unguarded files: plain textual inclusion (same output whichever way the file is recognised).
+Part D3 re-inclusion HISTORIES (the shortcut tables are state): EVERY sequence of <= 5 (thorough 6) steps over {#include
+        "h.h", #include "./h.h" (other spelling), #include "w.h" (which includes h.h), #undef G, #define G} with at
+        least one inclusion (3 843 / 19 404 scripts) x header kind {#ifndef guard, #if !defined() guard, #pragma once,
+        both, nothing}; a marker after every step; expected = plain textual inclusion (under #pragma once the same file
+        through the other spelling may be included once or again: identity-keyed and spelling-keyed model both accepted).
 Part E  every sequence of <= 3 (thorough 4) options from {-DX, -DX=2, -D X=3, -DY=X, -D'F(x)=x+Y', -UX, -U X,
         -include a.h|b.h|g.h|c.h(found via -I)} x position of -I, against the same directives written in a file
         (model, gcc, and chibicc itself on that file).
+Part E2 -D / -U over PREDEFINED macro names.  The predefined set is read from the binary under test (candidates: every
+        identifier-like string of the executable + gcc -dM names; `#ifdef` probes, twice, to tell dynamic ones).  -DN,
+        -DN=7, -UN (joined / separate argument) over EVERY judged predefined name; every sequence of <= 2 (thorough 3)
+        requests over one predefined name per class {not reserved (linux), value 1, other integer, non-integer value,
+        empty value} + a user name (+ -DU=N).  A body expands each name and tests #ifdef / #if N == 7.  Expected = the
+        same #define/#undef lines at the top of the file: model over the probed table + the same binary on that file;
+        the model's reading of every option sequence is validated by gcc with gcc's own table (-dM).  Names of 6.10.8
+        (__STDC*, __DATE__, __TIME__, __FILE__, __LINE__; #define/#undef of them is undefined) and dynamic macros are
+        not judged.  Options and file agreeing with each other but not with the model = HarnessError (probe in doubt).
 Oracle everywhere: the Python model AND `gcc -E -P -nostdinc` must agree before chibicc is judged; any disagreement
 is a HarnessError (exit 2), never a VIOLATION.  Outputs are compared as re-lexed token streams.
 """
@@ -68,7 +95,7 @@ from vlib import core
 from models import c10_model as M
 
 LEVEL = "model_checking"
-BUDGET = {"quick": 600, "thorough": 3600}      # global deadlines, not targets: ~7-10 CPU-min / ~45-50 CPU-min of work
+BUDGET = {"quick": 900, "thorough": 5400}      # global deadlines, not targets: ~9-12 CPU-min / ~60 CPU-min of work
 
 TOK = re.compile(r"[A-Za-z_][A-Za-z0-9_]*|\d+|\S")
 # `# 12 "file"` / `#line 12` lines are not tokens of the program: a chibicc that starts to emit them stays comparable
@@ -1075,6 +1102,437 @@ def part_c2(ctx):
 
 
 # =====================================================================================================
+# Part C3: directives that change the PRESUMED position (#line N "file", `# N "file"`) before #include / #pragma once
+# =====================================================================================================
+# 6.10.4: #line changes the presumed line number and the presumed NAME of the source file - nothing else.  The file a
+# later #include selects, and the file a #pragma once belongs to, depend on the real file that contains the directive.
+#   tree:  gen/main.c (primary)   nest/o_P_F.h (nested includers on no search path, named "../nest/o_P_F.h")
+#          inc/i_P_F.h (nested includers found through -Iinc, named <i_P_F.h>)      chain: -Iinc -Id1 -Ifb
+#          c10p.h: a different copy in every subset of {gen, nest, src, inc, d1, compiler's cwd} + always in fb (the last
+#          -I directory, so that every lookup resolves and a wrong lookup shows as a wrong file, not as an error)
+#   presumption lines P (Q_PRES): none | #line 7 "src/y.y" | "nowhere/y.y" (no such directory) | "y.y" (bare: the
+#          compiler's cwd) | absolute | `# 7 "src/y.y"` | `# 7 "nowhere/y.y"` | #line MACRO | #line 7 "d1/c10p.h" (an
+#          existing header) | #line 7 (number only)
+#   step = (file containing the directive: primary | nest/o | inc/i) x P placed before the directive x form F
+#          {#include "c10p.h", #include <c10p.h>; in inc/i also #include_next "c10p.h" / <c10p.h>}: 80 steps
+#   case = every script of <= 2 steps (a #line in the primary file stays in force for the later steps) x placement
+#          (quick: 6 placements, thorough: all 64) x configuration (compiler cwd = tree root | a sibling directory with
+#          every path spelled through `../`).
+#   second family (#pragma once / guard): headers pa.h = [P naming the path of the sibling pb.h as the compiler
+#          spells it / its own / another] + #pragma once | guard, before or after the #pragma; every script of <= 4
+#          inclusions over {pa.h, pb.h}.
+# Expected = the model (which ignores the presumed name altogether) and gcc -E agreeing.
+Q_LOCS = ["gen", "nest", "src", "inc", "d1", "cwd"]
+Q_CHAIN = ["inc", "d1", "fb"]
+Q_PRES = [("none", None), ("#line", '#line 7 "@P@src/y.y"'), ("#line", '#line 7 "@P@nowhere/y.y"'), ("#line", '#line 7 "y.y"'),
+          ("#line", '#line 7 "@ABS@/src/y.y"'), ("line-marker", '# 7 "@P@src/y.y"'), ("line-marker", '# 7 "@P@nowhere/y.y"'),
+          ("#line-macro-expanded", "#line C10PL"), ("#line", '#line 7 "@P@d1/c10p.h"'), ("#line-number-only", "#line 7")]
+Q_PROLOG = '#define C10PL 7 "@P@src/y.y"\n'
+Q_FORMS = {"q": '#include "c10p.h"', "a": "#include <c10p.h>", "nq": '#include_next "c10p.h"', "na": "#include_next <c10p.h>"}
+Q_STEPS = ([("main", p, f) for p in range(len(Q_PRES)) for f in ("q", "a")]
+           + [("nest", p, f) for p in range(len(Q_PRES)) for f in ("q", "a")]
+           + [("inc", p, f) for p in range(len(Q_PRES)) for f in ("q", "a", "nq", "na")])
+Q_QUICK_PLACEMENTS = [("gen", "nest", "src", "inc", "d1", "cwd"), ("gen", "src"), ("src",), ("gen", "nest", "inc", "d1"),
+                      ("nest", "src", "cwd"), ("inc", "src", "d1")]
+Q_CONFIGS = [("cwd=tree-root", ".", ""), ("cwd=sibling-directory", "run", "../")]     # (label, cwd, prefix of every path)
+Q_BATCH = 150
+
+
+def q_subst(t, prefix, root):
+    return t.replace("@P@", prefix).replace("@ABS@", root)
+
+
+def q_nested_files(prefix, root):
+    files = {}
+    for who, d in (("nest", "nest/o_%d_%s.h"), ("inc", "inc/i_%d_%s.h")):
+        for p, (_, line) in enumerate(Q_PRES):
+            for f in (("q", "a") if who == "nest" else ("q", "a", "nq", "na")):
+                files[d % (p, f)] = "OB\n%s%s\nOE\n" % (q_subst(line, prefix, root) + "\n" if line else "", Q_FORMS[f])
+    return files
+
+
+def q_case_text(script, prefix, root):
+    o = []
+    for n, (who, p, f) in enumerate(script):
+        if n:
+            o.append("M%d\n" % n)
+        if who == "main":
+            if Q_PRES[p][1]:
+                o.append(q_subst(Q_PRES[p][1], prefix, root) + "\n")
+            o.append(Q_FORMS[f] + "\n")
+        elif who == "nest":
+            o.append('#include "../nest/o_%d_%s.h"\n' % (p, f))
+        else:
+            o.append("#include <i_%d_%s.h>\n" % (p, f))
+    return "".join(o)
+
+
+def q_cases(tier):
+    scripts = [(s,) for s in Q_STEPS] + list(itertools.product(Q_STEPS, repeat=2))
+    if tier == "quick":
+        places = Q_QUICK_PLACEMENTS
+    else:
+        places = [tuple(l for i, l in enumerate(Q_LOCS) if m >> i & 1) for m in range(64)]
+    return places, scripts
+
+
+def q_class(tok, who):
+    if tok is None:
+        return "nothing"
+    if tok.startswith("H_"):
+        loc = tok[2:]
+        if loc == {"main": "gen", "nest": "nest", "inc": "inc"}.get(who):
+            return "includer-dir"
+        return {"src": "dir-named-by-#line", "cwd": "compiler-cwd", "inc": "search-path", "d1": "search-path",
+                "fb": "search-path"}.get(loc, "dir-of-another-file")
+    return "other-text"
+
+
+def q_sig(script, exp, got, st, model_events):
+    if st != 0:
+        return "presumed-name|%s" % ("crash" if isinstance(st, int) and st < 0 else "rejected"), None
+    i = next((j for j in range(min(len(exp), len(got))) if exp[j] != got[j]), min(len(exp), len(got)))
+    # the step in which the first difference lies
+    n = sum(1 for t in exp[:i + 1] if re.match(r"^M\d+$", t)) if i < len(exp) else len(script) - 1
+    n = min(n, len(script) - 1)
+    who, p, f = script[n]
+    # was a presumption with a file name in force in the file containing the directive?
+    inforce = Q_PRES[p][0] if who != "main" else next((Q_PRES[pp][0] for w, pp, ff in reversed(script[:n + 1])
+                                                       if w == "main" and Q_PRES[pp][0] not in ("none", "#line-number-only")), "none")
+    after = "presumed-name-unchanged" if inforce in ("none", "#line-number-only") else "presumed-name-changed"
+    return ("presumed-name|%s|%s|want=%s|got=%s" % (after, {"q": '#include""', "a": "#include<>", "nq": '#include_next""', "na": "#include_next<>"}[f],
+                                                     q_class(exp[i] if i < len(exp) else None, who),
+                                                     q_class(got[i] if i < len(got) else None, who))), inforce
+
+
+def q_build(wd, place, cfg):
+    shutil.rmtree(wd, ignore_errors=True)
+    root = os.path.join(os.path.realpath(os.path.dirname(wd)), os.path.basename(wd))
+    for d in ("gen", "nest", "src", "inc", "d1", "fb", "run"):
+        os.makedirs(os.path.join(root, d))
+    label, cwd, prefix = cfg
+    files = q_nested_files(prefix, root)
+    files["fb/c10p.h"] = "H_fb\n"
+    for loc in place:
+        files[(os.path.normpath(cwd) + "/c10p.h" if loc == "cwd" else loc + "/c10p.h").replace("./", "")] = "H_%s\n" % loc
+    for rel, txt in files.items():
+        with open(os.path.join(root, rel), "w") as f:
+            f.write(txt)
+    return root, files
+
+
+def q_run(chibicc, root, cfg, name, text, gcc):
+    label, cwd, prefix = cfg
+    with open(os.path.join(root, "gen", name), "w") as f:
+        f.write(text)
+    opts = ["-I%s%s" % (prefix, d) for d in Q_CHAIN]
+    src = "%sgen/%s" % (prefix, name)
+    argv = GCC + opts + [src] if gcc else [chibicc, "-cc1", "-E"] + opts + ["-cc1-input", src, src]
+    return core.run_limited(argv, cwd=os.path.join(root, cwd), timeout=30)
+
+
+def q_task(args):
+    chibicc, wd, place, ci, scripts, deadline = args
+    cfg = Q_CONFIGS[ci]
+    res = {"n": 0, "judged": 0, "disagree": 0, "disagree_ex": None, "viol": {}, "runs": 0, "timeouts": 0, "cut": 0,
+           "outcomes": set(), "chain_diff": 0, "presumed_dir_has_copy": 0}
+    root, files = q_build(wd, place, cfg)
+    prolog = q_subst(Q_PROLOG, cfg[2], root)
+    mfiles = {"/r/" + k: v.replace(root, "/r") for k, v in files.items()}
+    chain = ["/r/" + d for d in Q_CHAIN]
+
+    def run(texts, gcc, name):
+        def runner(src, opts, cwd):
+            res["runs"] += 1
+            with open(src) as f:
+                return q_run(chibicc, root, cfg, name, f.read(), gcc)
+        return run_batch(runner, wd, texts, name="batch.c", prolog=prolog)
+
+    confirmed, final = {}, {}
+    for batch in core.chunks(scripts, Q_BATCH):
+        if time.time() > deadline:
+            res["cut"] = 1
+            break
+        texts = [q_case_text(sc, cfg[2], root) for sc in batch]
+        mtexts = [q_case_text(sc, cfg[2], "/r") for sc in batch]
+        mfiles["/r/gen/main.c"] = (prolog.replace(root, "/r") + "".join("S%d\n%s" % (k, t) for k, t in enumerate(mtexts))
+                                   + "S%d\n" % len(mtexts))
+        exp_all = segments(" ".join(M.Cpp(mfiles, chain).run("/r/gen/main.c")), len(mtexts))
+        r_c = run(texts, False, "main.c")
+        r_g = run(texts, True, "main.c")
+        for sc, txt, exp, (st, tc, ec), (sg, tg, eg) in zip(batch, texts, exp_all, r_c, r_g):
+            res["n"] += 1
+            if sg == "timeout" or st == "timeout":
+                res["timeouts"] += 1
+                continue
+            if sg != 0 or tg != exp:
+                res["disagree"] += 1
+                res["disagree_ex"] = res["disagree_ex"] or (cfg[0], place, txt, exp, tg if sg == 0 else "rejected: " + eg[-200:])
+                continue
+            res["judged"] += 1
+            res["outcomes"].add(tuple(exp))
+            if "src" in place and any(Q_PRES[p][1] and "src/" in Q_PRES[p][1] for _, p, _ in sc):
+                res["presumed_dir_has_copy"] += 1
+            if st == 0 and tc == exp:
+                continue
+            pre = q_sig(sc, exp, tc, st, None)[0] if st == 0 else None
+            hist = confirmed.get(pre)
+            if hist and hist[0] >= CONFIRM and hist[1] == 0 and pre in final:
+                res["viol"][final[pre]][0] += 1
+                continue
+            # deviating in the batch: the case alone decides (in the batch, a #line of an earlier case is still in force)
+            (sa, ta, ea), = run([txt], False, "alone.c")
+            if sa == "timeout":
+                res["timeouts"] += 1
+                res["judged"] -= 1
+                continue
+            if sa == 0 and ta == exp:
+                res["chain_diff"] += 1
+                sig, inforce = "presumed-name|set-by-an-earlier-directive-of-the-primary-file|wrong-file-selected", "earlier"
+                alone = False
+                if pre:
+                    confirmed.setdefault(pre, [0, 0])[1] += 1
+            else:
+                sig, inforce = q_sig(sc, exp, ta or [], sa, None)
+                alone = True
+                if pre:
+                    confirmed.setdefault(pre, [0, 0])[0 if sig == pre else 1] += 1
+                if "|presumed-name-changed|" in sig:
+                    # the same script without any presumption line (the model's expectation is the same by construction)
+                    (sv, tv, ev), = run([q_case_text([(w, 0, f) for w, p, f in sc], cfg[2], root)], False, "alone.c")
+                    if sv == 0 and tv == exp:
+                        sig = "|".join(sig.split("|")[:3]) + "|wrong-file-selected|right-file-without-the-#line"
+            if alone and pre and q_sig(sc, exp, ta or [], sa, None)[0] == pre:
+                final[pre] = sig
+            v = res["viol"].setdefault(sig, [0, None])
+            v[0] += 1
+            size = len(sc) * 1000 + len(txt) + len(place) * 10 + (0 if alone else 10 ** 6)
+            if v[1] is None or size < v[1][0]:
+                if alone:
+                    v[1] = (size, ci, place, prolog.replace(root, "@ABS@") + q_case_text(sc, cfg[2], "@ABS@"), exp, ta or [], str(sa),
+                            ea[-300:], inforce)
+                else:
+                    whole = (prolog.replace(root, "@ABS@") + "".join("S%d\n%s" % (k, q_case_text(s2, cfg[2], "@ABS@"))
+                                                                     for k, s2 in enumerate(batch)) + "S%d\n" % len(batch))
+                    allexp = []
+                    for k, e2 in enumerate(exp_all):
+                        allexp += ["S%d" % k] + e2
+                    v[1] = (size, ci, place, whole, allexp + ["S%d" % len(batch)], ["<stream of the whole batch>"], str(st),
+                            ec[-300:], inforce)
+    shutil.rmtree(wd, ignore_errors=True)
+    return res
+
+
+Q_REPLAY = r"""TOP=$(pwd -P)
+for f in $(find . -name '*.h' -o -name 'main.tmpl'); do sed -i "s|@ABS@|$TOP|g" $f; done
+mkdir -p gen nest src inc d1 fb run; cp main.tmpl gen/main.c
+P=$(cat prefix.txt)
+cd "$(cat cwd.txt)" || exit 0
+$CHIBICC -cc1 -E -I${P}inc -I${P}d1 -I${P}fb -cc1-input ${P}gen/main.c ${P}gen/main.c > $TOP/got.txt 2> $TOP/err.txt || exit 1
+cd $TOP
+python3 $VERIF/harness/c10_cmp.py got.txt expected.txt || exit 1
+exit 0"""
+
+
+# ---- second family: the file a #pragma once / a guard belongs to ------------------------------------
+# pa.h / pb.h live next to the primary file (gen/); the compiler names them "<prefix>gen/pa.h".  @SELF@ / @SIB@ = the
+# path of pa.h itself / of its sibling pb.h spelled exactly as the compiler puts it together (directory of the includer
+# + "/" + name), @BARE@ = the bare sibling name.
+R_PRES = [None, '#line 1 "@SIB@"', '# 1 "@SIB@"', '#line 1 "@BARE@"', '#line 1 "@P@nowhere/x.h"', '#line 1 "@ABSSIB@"',
+          '#line 1 "./@SIB@"']
+R_KINDS = ["once", "once-then-presumption", "guard", "once+guard"]
+R_BATCH = 100
+
+
+def r_header(kind, pres, k, prefix, root):
+    line = None
+    if pres:
+        line = (pres.replace("@SIB@", "%sgen/pb%d.h" % (prefix, k)).replace("@BARE@", "pb%d.h" % k)
+                .replace("@ABSSIB@", "%s/gen/pb%d.h" % (root, k)).replace("@P@", prefix))
+    o = []
+    if kind != "once-then-presumption" and line:
+        o.append(line)
+    if "once" in kind:
+        o.append("#pragma once")
+    if kind == "once-then-presumption" and line:
+        o.append(line)
+    if "guard" in kind:
+        o += ["#ifndef RG%d" % k, "#define RG%d" % k, "PA%d" % k, "#endif"]
+    else:
+        o.append("PA%d" % k)
+    return "\n".join(o) + "\n"
+
+
+def r_scripts():
+    return ["".join(s) for n in range(1, 5) for s in itertools.product("ab", repeat=n) if "a" in s]
+
+
+def r_main(script, k):
+    return "".join('#include "p%s%d.h"\nM%d\n' % (c, k, n + 1) for n, c in enumerate(script))
+
+
+def r_task(args):
+    chibicc, wd, ci, cases, deadline = args
+    cfg = Q_CONFIGS[ci]
+    res = {"n": 0, "judged": 0, "disagree": 0, "disagree_ex": None, "viol": {}, "timeouts": 0, "cut": 0, "suppressed": 0}
+    for batch in core.chunks(cases, R_BATCH):
+        if time.time() > deadline:
+            res["cut"] = 1
+            break
+        root, _ = q_build(wd, (), cfg)
+        mfiles = {}
+        for k, (kind, pi, script) in enumerate(batch):
+            for name, txt in (("pa%d.h" % k, r_header(kind, R_PRES[pi], k, cfg[2], root)), ("pb%d.h" % k, "PB%d\n" % k)):
+                with open(os.path.join(root, "gen", name), "w") as f:
+                    f.write(txt)
+                mfiles["/r/gen/" + name] = txt.replace(root, "/r")
+        texts = [r_main(script, k) for k, (kind, pi, script) in enumerate(batch)]
+        mfiles["/r/gen/main.c"] = "".join("S%d\n%s" % (k, t) for k, t in enumerate(texts)) + "S%d\n" % len(texts)
+        exp_all = segments(" ".join(M.Cpp(mfiles, ["/r/" + d for d in Q_CHAIN]).run("/r/gen/main.c")), len(texts))
+
+        def runner(gcc):
+            def f(src, opts, cwd):
+                with open(src) as fh:
+                    return q_run(chibicc, root, cfg, "main.c", fh.read(), gcc)
+            return f
+        r_c = run_batch(runner(False), wd, texts, name="batch.c")
+        r_g = run_batch(runner(True), wd, texts, name="batch.c")
+        for k, ((kind, pi, script), txt, exp, (st, tc, ec), (sg, tg, eg)) in enumerate(zip(batch, texts, exp_all, r_c, r_g)):
+            res["n"] += 1
+            if sg == "timeout" or st == "timeout":
+                res["timeouts"] += 1
+                continue
+            if sg != 0 or tg != exp:
+                res["disagree"] += 1
+                res["disagree_ex"] = res["disagree_ex"] or (cfg[0], (kind, R_PRES[pi]), txt, exp, tg if sg == 0 else "rejected: " + eg[-200:])
+                continue
+            res["judged"] += 1
+            res["suppressed"] += exp.count("PA%d" % k) < script.count("a")
+            if st == 0 and tc == exp:
+                continue
+            if st != 0:
+                dev = "crash" if isinstance(st, int) and st < 0 else "rejected"
+            else:
+                na, nb = tc.count("PA%d" % k) - exp.count("PA%d" % k), tc.count("PB%d" % k) - exp.count("PB%d" % k)
+                dev = "+".join(x for x, c in (("file-with-the-directive-included-again", na > 0), ("file-with-the-directive-not-included", na < 0),
+                                              ("file-named-by-#line-not-included", nb < 0), ("file-named-by-#line-included-again", nb > 0)) if c) or "wrong-tokens"
+            sig = "presumed-name|%s|%s|%s" % ("presumed-name-changed" if R_PRES[pi] else "presumed-name-unchanged",
+                                               "#pragma-once" if "once" in kind else "guard", dev)
+            v = res["viol"].setdefault(sig, [0, None])
+            v[0] += 1
+            size = len(script) * 1000 + len(txt)
+            if v[1] is None or size < v[1][0]:
+                ren = lambda toks: [re.sub(r"^(P[AB])%d$" % k, r"\g<1>0", t) for t in (toks or [])]
+                v[1] = (size, ci, kind, R_PRES[pi], r_header(kind, R_PRES[pi], 0, cfg[2], "@ABS@"), r_main(script, 0), ren(exp), ren(tc),
+                        str(st), ec[-300:])
+    shutil.rmtree(wd, ignore_errors=True)
+    return res
+
+
+def part_c3(ctx):
+    places, scripts = q_cases(ctx.tier)
+    per = 4 if ctx.tier == "quick" else 1
+    tasks = []
+    for pi, place in enumerate(places):
+        for ci in range(len(Q_CONFIGS)):
+            for j in range(per):
+                tasks.append((ctx.chibicc, os.path.join(ctx.work, "c3_%d_%d_%d" % (pi, ci, j)), place, ci, scripts[j::per],
+                              ctx.deadline - 15))
+    keys = ["n", "judged", "disagree", "runs", "timeouts", "chain_diff", "presumed_dir_has_copy"]
+    agg = dict.fromkeys(keys, 0)
+    outcomes, viol, dis = set(), {}, None
+    for r in core.pmap(q_task, tasks):
+        for k in keys:
+            agg[k] += r[k]
+        outcomes |= r["outcomes"]
+        dis = dis or r["disagree_ex"]
+        if r["cut"] and ctx.exhaustive:
+            ctx.incomplete("part C3: deadline reached; the cases judged so far are reported")
+        for sig, (cnt, ex) in r["viol"].items():
+            v = viol.setdefault(sig, [0, ex])
+            v[0] += cnt
+            if ex[0] < v[1][0]:
+                v[1] = ex
+    for sig, (cnt, ex) in sorted(viol.items()):
+        size, ci, place, main, exp, got, st, err, inforce = ex
+        label, cwd, prefix = Q_CONFIGS[ci]
+        fl = {k: v for k, v in q_nested_files(prefix, "@ABS@").items()}
+        fl["fb/c10p.h"] = "H_fb\n"
+        for loc in place:
+            fl[(os.path.normpath(cwd) + "/c10p.h" if loc == "cwd" else loc + "/c10p.h").replace("./", "")] = "H_%s\n" % loc
+        fl.update({"main.tmpl": main, "prefix.txt": prefix + "\n", "cwd.txt": cwd + "\n", "expected.txt": " ".join(exp) + "\n",
+                   "observed.txt": "status=%s\n%s\n%s\n" % (st, " ".join(got), err)})
+        ctx.violation("C10|include|" + sig,
+                      "a #line / line marker changes the presumed file name only, never the file an #include selects: c10p.h in "
+                      "{%s,fb}, %s, -Iinc -Id1 -Ifb, presumption in force in the including file: %s; primary file gen/main.c:\n%s"
+                      "expected %s, got %s (status %s)"
+                      % (",".join(place), label, inforce, main if len(main) < 600 else "(whole batch)\n", " ".join(exp) if len(exp) < 40 else "...",
+                         " ".join(got), st),
+                      files=fl, replay=Q_REPLAY)
+        for _ in range(cnt - 1):
+            ctx.violation("C10|include|" + sig, "")
+    if dis:
+        raise core.HarnessError("part C3: model and gcc disagree: %s, c10p.h in %s\n%s\nmodel %s gcc %s" % dis)
+    # second family
+    rcases = [(kind, pi, sc) for kind in R_KINDS for pi in range(len(R_PRES)) for sc in r_scripts()]
+    ntask = core.NPROC
+    rtasks = [(ctx.chibicc, os.path.join(ctx.work, "c3r_%d_%d" % (ci, i)), ci, rcases[i::ntask], ctx.deadline - 15)
+              for ci in range(len(Q_CONFIGS)) for i in range(ntask)]
+    rkeys = ["n", "judged", "disagree", "timeouts", "suppressed"]
+    ragg = dict.fromkeys(rkeys, 0)
+    rviol, rdis = {}, None
+    for r in core.pmap(r_task, rtasks):
+        for k in rkeys:
+            ragg[k] += r[k]
+        rdis = rdis or r["disagree_ex"]
+        if r["cut"] and ctx.exhaustive:
+            ctx.incomplete("part C3 (#pragma once family): deadline reached")
+        for sig, (cnt, ex) in r["viol"].items():
+            v = rviol.setdefault(sig, [0, ex])
+            v[0] += cnt
+            if ex[0] < v[1][0]:
+                v[1] = ex
+    for sig, (cnt, ex) in sorted(rviol.items()):
+        size, ci, kind, pres, h0, m0, exp, got, st, err = ex
+        label, cwd, prefix = Q_CONFIGS[ci]
+        ctx.violation("C10|reinclude|" + sig,
+                      "a #line / line marker never changes the file a #pragma once or a guard belongs to: %s; gen/pa0.h (kind %s):\n%s"
+                      "gen/pb0.h: PB0; primary file gen/main.c:\n%sexpected %s, got %s (status %s)"
+                      % (label, kind, h0, m0, " ".join(exp), " ".join(got), st),
+                      files={"gen/pa0.h": h0, "gen/pb0.h": "PB0\n", "main.tmpl": m0, "prefix.txt": prefix + "\n", "cwd.txt": cwd + "\n",
+                             "expected.txt": " ".join(exp) + "\n", "observed.txt": "status=%s\n%s\n%s\n" % (st, " ".join(got), err)},
+                      replay=Q_REPLAY)
+        for _ in range(cnt - 1):
+            ctx.violation("C10|reinclude|" + sig, "")
+    if rdis:
+        raise core.HarnessError("part C3 (#pragma once family): model and gcc disagree: %s, header %s\n%s\nmodel %s gcc %s" % rdis)
+    if agg["timeouts"] or ragg["timeouts"]:
+        ctx.incomplete("part C3: %d cases timed out (machine load) and were not judged" % (agg["timeouts"] + ragg["timeouts"]))
+    elif ctx.exhaustive and (agg["judged"] < 1000 or len(outcomes) < 20 or not agg["presumed_dir_has_copy"] or ragg["judged"] < 200
+                             or not ragg["suppressed"]):
+        raise core.HarnessError("part C3 vacuous: %s %s" % (agg, ragg))
+    ctx.cover(c3_cases=agg["n"], c3_judged=agg["judged"], c3_distinct_expected_streams=len(outcomes), c3_process_runs=agg["runs"],
+              c3_steps=len(Q_STEPS), c3_scripts=len(scripts), c3_placements=len(places), c3_configurations=[c[0] for c in Q_CONFIGS],
+              c3_presumption_lines=[p[1] or "(none)" for p in Q_PRES],
+              c3_cases_where_the_presumed_directory_holds_a_copy=agg["presumed_dir_has_copy"],
+              c3_chained_vs_alone_differences=agg["chain_diff"],
+              c3_once_cases=ragg["n"], c3_once_judged=ragg["judged"], c3_once_presumption_lines=[p or "(none)" for p in R_PRES],
+              c3_once_header_kinds=R_KINDS, oracle_disagreements=agg["disagree"] + ragg["disagree"],
+              traces_validated_against_impl=agg["judged"] + ragg["judged"],
+              c3_rule="directives that change the presumed position before an inclusion: step = (directive in the primary file | in "
+                      "a nested header on no search path | in a nested header found through -I) x presumption line {none, #line N "
+                      "\"dir/file\" with an existing / a nonexistent / no directory / absolute / naming an existing header, `# N "
+                      "\"file\"` marker, macro-expanded, number only} x {#include \"\", <>, #include_next \"\", <>}; every script of "
+                      "<= 2 steps x c10p.h in %s of {primary's dir, nested includer's dir, dir named by #line, two -I dirs, "
+                      "compiler's cwd} x 2 configurations; plus #line before/after #pragma once / a guard naming the sibling "
+                      "header's path as the compiler spells it, every script of <= 4 inclusions over the two headers; "
+                      "expected: the selected FILE never depends on the presumed name (model ignoring #line == gcc -E)"
+                      % ("6 subsets" if ctx.tier == "quick" else "every subset"))
+    ctx.sample({"part": "C3", "main": Q_PROLOG + q_case_text((("main", 1, "q"), ("inc", 6, "nq")), "", "/abs"),
+                "nested": q_nested_files("", "/abs")["inc/i_6_nq.h"]})
+
+
+# =====================================================================================================
 # Part D: re-inclusion shortcuts (#pragma once, include-guard detection)
 # =====================================================================================================
 D_BATCH = 120
@@ -1128,6 +1586,9 @@ def d_header(shape, k):
         o += ["#if 1", "C", "#endif"]
     if once == "end":
         o.append("#pragma once")
+    # gcc's #pragma once takes two files of equal size, mtime and CONTENT for one file: every header of a batch carries
+    # its index in a comment on the body line (no token, not a line of its own: guard recognition is not affected)
+    o[o.index("B")] = "B /* h%d */" % k
     return "\n".join(o) + "\n"
 
 
@@ -1773,6 +2234,228 @@ def part_d2(ctx):
 
 
 # =====================================================================================================
+# Part D3: re-inclusion HISTORIES (the shortcut tables are state: every step sequence, not only 2-3 inclusions)
+# =====================================================================================================
+# One header h.h (kind: its own #ifndef guard | #if !defined(G) guard | #pragma once | both | nothing) and a wrapper w.h that
+# includes it.  A script = EVERY sequence of <= 5 (thorough 6) steps over
+#   I  #include "h.h"          U  #undef G          D  #define G
+#   S  #include "./h.h"  (the same file through another spelling)          W  #include "w.h"  (w.h: W1 #include "h.h" W2)
+# with at least one inclusion; a marker token follows every step.  Expected = plain textual inclusion (model + gcc -E).
+# With #pragma once a file reached through ANOTHER spelling may or may not be recognised (implementation-defined): the
+# streams of the model keyed by file identity (= gcc) and of the model keyed by the spelled path are both accepted.
+H_STEPS = {"I": '#include "h%d.h"\n', "U": "#undef G%d\n", "D": "#define G%d\n", "S": '#include "./h%d.h"\n',
+           "W": '#include "w%d.h"\n'}
+H_STEPNAME = {"I": "include-same-spelling", "S": "include-other-spelling", "W": "include-through-another-header"}
+H_KINDS = {"guard": "#ifndef G%d\n#define G%d\nB%d\n#endif\n",
+           "guard-if-not-defined": "#if !defined(G%d)\n#define G%d\nB%d\n#endif\n",
+           "once": "#pragma once\nB%d\n",
+           "once+guard": "#pragma once\n#ifndef G%d\n#define G%d\nB%d\n#endif\n",
+           "plain": "B%d\n"}
+H_BATCH = 150
+
+
+def h_scripts(maxlen):
+    for n in range(1, maxlen + 1):
+        for sc in itertools.product("IUDSW", repeat=n):
+            if any(c in "ISW" for c in sc):
+                yield "".join(sc)
+
+
+def h_header(kind, k):
+    t = H_KINDS[kind]
+    return t % ((k,) * t.count("%d"))
+
+
+def h_wrapper(k):
+    return 'W1\n#include "h%d.h"\nW2\n' % k
+
+
+def h_main(script, k):
+    return "".join(H_STEPS[c] % k + "M%d\n" % (n + 1) for n, c in enumerate(script))
+
+
+def h_slots(toks, n):
+    """Token stream of one case -> n slots (tokens before M1, between M1 and M2, ...), or None."""
+    out, cur, want = [], [], 1
+    for t in toks:
+        if t[0] == "M" and t[1:].isdigit():
+            if t != "M%d" % want:
+                return None
+            out.append(cur)
+            cur, want = [], want + 1
+        else:
+            cur.append(t)
+    return out if len(out) == n and not cur else None
+
+
+def h_sig(kind, script, exps, st, got, k):
+    """Class of a deviation: the step at which the stream first leaves every accepted stream, the state of the guard
+    macro there, and what had happened to the file before (read / an inclusion that produced nothing / #undef)."""
+    if st != 0:
+        return "%s|%s" % (kind, "crash" if isinstance(st, int) and st < 0 else "rejected")
+    gs = h_slots(got or [], len(script))
+    if gs is None:
+        return "%s|garbled" % kind
+    best = None
+    for exp in exps:
+        es = h_slots(exp, len(script))
+        n = next((i for i in range(len(script)) if es[i] != gs[i]), len(script))
+        if best is None or n > best[0]:
+            best = (n, es)
+    n, es = best
+    if n >= len(script):
+        return "%s|garbled" % kind
+    body = "B%d" % k
+    gdef, read, skipped, undef_after_skip = False, False, False, False
+    for i in range(n):
+        c = script[i]
+        if c == "U":
+            undef_after_skip = undef_after_skip or skipped
+            gdef = False
+        elif c == "D":
+            gdef = True
+        else:
+            if body in es[i]:
+                read = True
+                gdef = gdef or "guard" in kind
+            else:
+                skipped = True
+    earlier = ("inclusion-skipped" + ("+guard-undefined-since" if undef_after_skip else "") if skipped else
+               "read" if read else "nothing")
+    want, have = es[n].count(body), gs[n].count(body)
+    dev = ("file-not-included" if have < want else "file-included-again" if have > want else "wrong-tokens")
+    # (the form of the deviating step - same spelling / other spelling / through w.h - is in the description only: the
+    # tables are per file, one root cause shows under every form)
+    return "%s|G-%s|earlier=%s|%s" % (kind, "defined" if gdef else "undefined", earlier, dev)
+
+
+def h_task(args):
+    chibicc, wd, cases, deadline = args
+    inc = os.path.join(wd, "inc")
+    res = {"n": 0, "judged": 0, "disagree": 0, "viol": {}, "disagree_ex": None, "runs": 0, "impl_defined": 0,
+           "chibicc_includes_again": 0, "suppressed_expected": 0, "reread_after_skip_expected": 0, "cut": 0, "timeouts": 0}
+    for batch in core.chunks(cases, H_BATCH):
+        if time.time() > deadline:
+            res["cut"] = 1
+            break
+        shutil.rmtree(wd, ignore_errors=True)
+        os.makedirs(inc)
+        files = {}
+        texts = []
+        for k, (kind, script) in enumerate(batch):
+            files["/inc/h%d.h" % k] = h_header(kind, k)
+            files["/inc/w%d.h" % k] = h_wrapper(k)
+            texts.append(h_main(script, k))
+        for name, txt in files.items():
+            with open(wd + name, "w") as f:
+                f.write(txt)
+        allf = dict(files)
+        allf["/inc/b.c"] = "".join("S%d\n%s" % (k, t) for k, t in enumerate(texts)) + "S%d\n" % len(texts)
+        exp_id = segments(" ".join(M.Cpp(allf, ["/inc"]).run("/inc/b.c")), len(texts))
+        exp_sp = segments(" ".join(M.Cpp(allf, ["/inc"], once_by_spelling=True).run("/inc/b.c")), len(texts))
+        r_c = run_batch(lambda s, o, c: cc_E(chibicc, s, o, c), inc, texts, opts=["-I" + inc])
+        r_g = run_batch(lambda s, o, c: gcc_E(s, o, c), inc, texts, opts=["-I" + inc])
+        res["runs"] += 1
+        for k, ((kind, script), txt, e1, e2, (sc, tc, ec), (sg, tg, eg)) in enumerate(zip(batch, texts, exp_id, exp_sp, r_c, r_g)):
+            res["n"] += 1
+            if sg == "timeout" or sc == "timeout":
+                res["timeouts"] += 1
+                continue
+            if sg != 0 or tg != e1:
+                res["disagree"] += 1
+                res["disagree_ex"] = res["disagree_ex"] or (kind, script, txt, e1, tg if sg == 0 else "rejected: " + eg[-200:])
+                continue
+            res["judged"] += 1
+            body = "B%d" % k
+            ninc = sum(c in "ISW" for c in script)
+            if e1.count(body) < ninc:
+                res["suppressed_expected"] += 1
+            # an inclusion that yields nothing, later one that yields the body again (the file must be re-read)
+            es = h_slots(e1, len(script))
+            empty = [i for i, c in enumerate(script) if c in "ISW" and body not in es[i]]
+            if empty and any(body in es[i] for i in range(empty[0] + 1, len(script))):
+                res["reread_after_skip_expected"] += 1
+            exps = [e1] + ([e2] if e2 != e1 else [])
+            res["impl_defined"] += len(exps) - 1
+            if sc == 0 and tc in exps:
+                res["chibicc_includes_again"] += tc != e1
+                continue
+            sig = h_sig(kind, script, exps, sc, tc, k)
+            v = res["viol"].setdefault(sig, [0, None])
+            v[0] += 1
+            size = len(script) * 1000 + len(txt)
+            if v[1] is None or size < v[1][0]:
+                ren = lambda toks: [re.sub(r"^([BG])%d$" % k, r"\g<1>0", t) for t in (toks or [])]
+                v[1] = (size, kind, script, h_header(kind, 0), h_wrapper(0), h_main(script, 0), ren(e1), ren(e2), ren(tc),
+                        str(sc), ec[-300:])
+    shutil.rmtree(wd, ignore_errors=True)
+    return res
+
+
+H_REPLAY = ("$CHIBICC -cc1 -E -Iinc -cc1-input inc/m.c inc/m.c > got.txt 2> err.txt || exit 1\n"
+            "python3 $VERIF/harness/c10_cmp.py got.txt expected.txt && exit 0\n"
+            "python3 $VERIF/harness/c10_cmp.py got.txt expected_alt.txt && exit 0\nexit 1")
+
+
+def part_d3(ctx):
+    L = 5 if ctx.tier == "quick" else 6
+    scripts = list(h_scripts(L))
+    cases = [(kind, sc) for kind in H_KINDS for sc in scripts]
+    ntask = core.NPROC * 2
+    tasks = [(ctx.chibicc, os.path.join(ctx.work, "d3_%d" % i), cases[i::ntask], ctx.deadline - 15) for i in range(ntask)]
+    keys = ["n", "judged", "disagree", "runs", "impl_defined", "chibicc_includes_again", "suppressed_expected",
+            "reread_after_skip_expected", "timeouts"]
+    agg = dict.fromkeys(keys, 0)
+    dis = None
+    viol = {}
+    for r in core.pmap(h_task, tasks):
+        for k in keys:
+            agg[k] += r[k]
+        if r["cut"] and ctx.exhaustive:
+            ctx.incomplete("part D3: deadline reached; the histories judged so far are reported")
+        dis = dis or r["disagree_ex"]
+        for sig, (cnt, ex) in r["viol"].items():         # the shortest history of each class over all shards
+            v = viol.setdefault(sig, [0, ex])
+            v[0] += cnt
+            if ex[0] < v[1][0]:
+                v[1] = ex
+    if True:
+        for sig, (cnt, ex) in sorted(viol.items()):
+            size, kind, script, h0, w0, m0, e1, e2, got, st, err = ex
+            ctx.violation("C10|reinclude-history|" + sig,
+                          "re-inclusion history %s (I include h.h, S include ./h.h, W include w.h which includes h.h, U #undef G, "
+                          "D #define G) on a header of kind '%s':\n%s\nexpected (textual inclusion) %s%s, got %s (status %s)"
+                          % (" ".join(script), kind, h0, " ".join(e1),
+                             " or (file not recognised under its other spelling) " + " ".join(e2) if e2 != e1 else "",
+                             " ".join(got), st),
+                          files={"inc/h0.h": h0, "inc/w0.h": w0, "inc/m.c": m0, "expected.txt": " ".join(e1) + "\n",
+                                 "expected_alt.txt": " ".join(e2) + "\n",
+                                 "observed.txt": "status=%s\n%s\n%s\n" % (st, " ".join(got), err)},
+                          replay=H_REPLAY)
+            for _ in range(cnt - 1):
+                ctx.violation("C10|reinclude-history|" + sig, "")
+    if dis:
+        raise core.HarnessError("part D3: model and gcc disagree: kind %s script %s\n%s\nmodel %s gcc %s" % dis)
+    if agg["timeouts"]:
+        ctx.incomplete("part D3: %d cases timed out (machine load) and were not judged" % agg["timeouts"])
+    elif ctx.exhaustive and (agg["judged"] < 1000 or not agg["suppressed_expected"] or not agg["reread_after_skip_expected"]
+                             or not agg["impl_defined"]):
+        raise core.HarnessError("part D3 vacuous: %s" % agg)
+    ctx.cover(d3_cases=agg["n"], d3_judged=agg["judged"], d3_scripts=len(scripts), d3_header_kinds=list(H_KINDS),
+              d3_max_steps=L, d3_expected_some_inclusion_suppressed=agg["suppressed_expected"],
+              d3_expected_reread_after_a_skipped_inclusion=agg["reread_after_skip_expected"],
+              d3_implementation_defined_either_accepted=agg["impl_defined"],
+              d3_of_which_chibicc_included_again=agg["chibicc_includes_again"],
+              oracle_disagreements=agg["disagree"], traces_validated_against_impl=agg["judged"],
+              d3_rule="re-inclusion histories: every sequence of <= %d steps over {#include \"h.h\", #include \"./h.h\", "
+                      "#include \"w.h\" (which includes h.h), #undef G, #define G} with >= 1 inclusion x header kind "
+                      "{#ifndef guard, #if !defined() guard, #pragma once, both, nothing}; expected = plain textual "
+                      "inclusion (model and gcc -E agree); under #pragma once the same file through another spelling may "
+                      "be included once or again" % L)
+    ctx.sample({"part": "D3", "kind": "guard", "script": "I I U I", "header": h_header("guard", 0), "main": h_main("IIUI", 0)})
+
+
+# =====================================================================================================
 # Part E: -include / -D / -U orders
 # =====================================================================================================
 E_FILES = {
@@ -1918,6 +2601,308 @@ def part_e(ctx):
                 "same_directives_in_file": e_as_file((("D", "X", "2", 0), ("include", "b.h"), ("U", "X", None, 1)))})
 
 
+# =====================================================================================================
+# Part E2: -D / -U over PREDEFINED macro names
+# =====================================================================================================
+# The set of predefined macros is READ FROM THE BINARY UNDER TEST: candidates = every identifier-like string in the
+# executable + every name `gcc -dM -E` lists; a probe file (`#ifdef N` / `@ k N @`) run through `chibicc -cc1 -E` twice
+# (other file name, directory, line offsets, order and mtime the second time) tells which are defined, their
+# replacement tokens, and which are dynamic (__LINE__, __COUNTER__, __FILE__, __TIMESTAMP__ ...).  Names of 6.10.8
+# (`__STDC*`, __DATE__, __TIME__, __FILE__, __LINE__: #define/#undef of them is undefined, 6.10.8p2) and dynamic or
+# function-like ones are not judged.  Case = option sequence over {-DN, -DN=7, -UN} (+ `-D N=7`, `-U N`, `-DU=N`):
+# every single option over EVERY judged predefined name; every sequence of <= 2 (thorough 3) over an alphabet of one
+# name per class {not reserved (linux/unix kind), value 1, other integer value, non-integer value, empty value} + a
+# user name.  Observed through a body that, for each name concerned, expands it, tests #ifdef and #if N == 7.
+# Expected = the same requests as #define/#undef lines at the top of the file: (1) model over the probed table,
+# (2) the same binary on that file; and the model is validated for every case by gcc with gcc's own table (-dM).
+E2_USER = "C10U"
+E2_RESERVED = re.compile(r"^(__STDC.*|__DATE__|__TIME__|__FILE__|__LINE__|defined|__cplusplus)$")
+E2_INT = re.compile(r"^(0[xX][0-9a-fA-F]+|\d+)[uUlL]*$")
+
+
+def e2_probe(chibicc, wd, names, variant):
+    """-> {name: replacement tokens} for the names that are defined, as seen by the binary itself."""
+    order = list(names) if not variant else list(reversed(names))
+    d = os.path.join(wd, "probe%d" % variant)
+    os.makedirs(d, exist_ok=True)
+    src = os.path.join(d, "p.c" if not variant else "other_name.c")
+    with open(src, "w") as f:
+        f.write("\n" * (3 * variant))
+        idx = {n: i for i, n in enumerate(names)}
+        for rnd in (0, 1):          # every name twice in one file: __COUNTER__ / __LINE__ kinds give two values
+            for n in order:
+                f.write("#ifdef %s\n@ %d %s @\n#endif\n" % (n, 2 * idx[n] + rnd, n))
+    if variant:
+        os.utime(src, (86400 * 400, 86400 * 400))
+    st, out, err = cc_E(chibicc, src, cwd=d)
+    if st != 0:
+        raise core.HarnessError("part E2: probe of the predefined macros failed: %s" % err[-300:])
+    res = {}
+    toks = lex(out)         # token-wise: the printer may break lines inside a probe (tokens made by builtin macros)
+    i = 0
+    while i < len(toks):
+        if toks[i] != "@" or i + 1 >= len(toks) or not toks[i + 1].isdigit():
+            raise core.HarnessError("part E2: unexpected token %r in the probe output" % toks[i])
+        j = toks.index("@", i + 1)
+        k = int(toks[i + 1])
+        res.setdefault(names[k // 2], [None, None])[k % 2] = toks[i + 2:j]
+        i = j + 1
+    return {n: (v[0] if v[0] == v[1] else ["<dynamic>", str(variant)]) for n, v in res.items()}
+
+
+def e2_gcc_table(wd):
+    st, out, err = core.run_limited(["gcc", "-E", "-dM", "-nostdinc", "-x", "c", "/dev/null"], cwd=wd, timeout=60)
+    if st != 0:
+        raise core.HarnessError("part E2: gcc -dM failed")
+    obj, fn = {}, set()
+    for line in out.split("\n"):
+        m = re.match(r"#define (\w+)(\(?)(.*)$", line)
+        if m:
+            if m.group(2):
+                fn.add(m.group(1))
+            else:
+                obj[m.group(1)] = TOK.findall(m.group(3))
+    return obj, fn
+
+
+def e2_expand(toks, table, hide=frozenset()):
+    out = []
+    for t in toks:
+        if t in table and t not in hide:
+            out += e2_expand(table[t], table, hide | {t})
+        else:
+            out.append(t)
+    return out
+
+
+def e2_apply(table, seq):
+    t = dict(table)
+    for kind, name, val in seq:
+        if kind == "U":
+            t.pop(name, None)
+        else:
+            t[name] = TOK.findall("1" if val is None else val)
+    return t
+
+
+def e2_body(names, intlike):
+    o = []
+    for i, n in enumerate(names):
+        o.append("P%d %s Q%d\n#ifdef %s\nD%d\n#else\nN%d\n#endif\n" % (i, n, i, n, i, i))
+        if n in intlike:
+            o.append("#if %s == 7\nE%d\n#endif\n" % (n, i))
+    return "".join(o)
+
+
+def e2_expect(names, intlike, table):
+    """None when the model does not define the result (the #if operand is not a single integer / identifier)."""
+    out = []
+    for i, n in enumerate(names):
+        out += ["P%d" % i] + e2_expand([n], table) + ["Q%d" % i, ("D%d" if n in table else "N%d") % i]
+        if n in intlike:
+            v = e2_expand([n], table)
+            if len(v) != 1 or not (E2_INT.match(v[0]) or re.match(r"^[A-Za-z_]\w*$", v[0])):
+                return None
+            if E2_INT.match(v[0]) and int(re.match(r"^(0[xX][0-9a-fA-F]+|\d+)", v[0]).group(1), 0) == 7:
+                out.append("E%d" % i)
+    return out
+
+
+def e2_argv(seq, sep):
+    o = []
+    for kind, name, val in seq:
+        a = name + ("=" + val if val is not None else "")
+        o += ["-" + kind, a] if sep else ["-" + kind + a]
+    return o
+
+
+def e2_textual(seq):
+    return "".join("#undef %s\n" % n if k == "U" else "#define %s %s\n" % (n, "1" if v is None else v) for k, n, v in seq)
+
+
+def e2_task(args):
+    chibicc, wd, cases, ctab, gtab, static, deadline = args
+    os.makedirs(wd, exist_ok=True)
+    res = {"n": 0, "judged": 0, "gcc_disagree": 0, "gcc_disagree_ex": None, "undef": 0, "viol": {}, "outcomes": set(),
+           "model_mismatch": 0, "model_mismatch_ex": None, "cut": 0, "timeouts": 0, "predefined_changed": 0}
+    for seq, sep, alpha in cases:
+        if time.time() > deadline:
+            res["cut"] = 1
+            break
+        res["n"] += 1
+        names = list(alpha) + [n for _, n, _ in seq if n not in alpha]
+        for _, n, v in seq:
+            if v is not None and re.match(r"^[A-Za-z_]\w*$", v) and v not in names:
+                names.append(v)
+
+        def intlike_in(tab):
+            return {n for n in names if n not in tab or (len(tab[n]) == 1 and E2_INT.match(tab[n][0]))}
+        intlike = intlike_in(ctab) & intlike_in(gtab)
+        body = e2_body(names, intlike)
+        exp_c = e2_expect(names, intlike, e2_apply(ctab, seq))
+        exp_g = e2_expect(names, intlike, e2_apply(gtab, seq))
+        if exp_c is None or exp_g is None:
+            res["undef"] += 1
+            continue
+        with open(os.path.join(wd, "m.c"), "w") as f:
+            f.write(body)
+        with open(os.path.join(wd, "eq.c"), "w") as f:
+            f.write(e2_textual(seq) + body)
+        opts = e2_argv(seq, sep)
+        sg, og, eg = core.run_limited(GCC + opts + ["m.c"], cwd=wd, timeout=30)
+        sc, oc, ec = core.run_limited([chibicc, "-cc1", "-E"] + opts + ["-cc1-input", "m.c", "m.c"], cwd=wd, timeout=30)
+        s2, o2, e2 = core.run_limited([chibicc, "-cc1", "-E", "-cc1-input", "eq.c", "eq.c"], cwd=wd, timeout=30)
+        if "timeout" in (sg, sc, s2):
+            res["timeouts"] += 1
+            continue
+        if sg != 0 or lex(og) != exp_g:
+            # the model's reading of this option sequence is not confirmed by the reference: not judged
+            res["gcc_disagree"] += 1
+            res["gcc_disagree_ex"] = res["gcc_disagree_ex"] or (opts, exp_g, lex(og) if sg == 0 else "rejected: " + eg[-200:])
+            continue
+        res["judged"] += 1
+        res["outcomes"].add(tuple(exp_c))
+        if any(n in ctab for _, n, _ in seq):
+            res["predefined_changed"] += 1
+        got = lex(oc) if sc == 0 else None
+        got2 = lex(o2) if s2 == 0 else None
+        if got == exp_c and got2 == exp_c:
+            continue
+        if got == got2:
+            # both forms agree with each other but not with the model built from the probed table: the probe (not the
+            # option handling) is in doubt - reported as a harness problem, never as a violation
+            res["model_mismatch"] += 1
+            res["model_mismatch_ex"] = res["model_mismatch_ex"] or (opts, exp_c, got)
+            continue
+        if got != exp_c:
+            dev = "rejected" if got is None else "differs-from-directives-in-file" if got2 == exp_c else "wrong-tokens"
+            bad = got
+        else:
+            dev, bad = "directives-in-file-wrong", got2
+        # the request responsible: the last one naming the macro at whose probe lines the first difference appears
+        who = "whole-unit"
+        if bad is not None:
+            i = next((j for j in range(min(len(exp_c), len(bad))) if exp_c[j] != bad[j]), min(len(exp_c), len(bad)))
+            at = next((t for t in reversed(exp_c[:i + 1]) if re.match(r"^[PDNE]\d+$", t) and t[0] == "P"), None)
+            if at is not None:
+                n = names[int(at[1:])]
+                req = [k for k, nn, v in seq if nn == n]
+                who = ("-%s-of-%s" % (req[-1], "predefined-name" if n in ctab else "user-name" if n not in static else "name")
+                       if req else "name-not-in-the-options")
+        sig = "predefined-macro|%s|%s" % (who, dev)
+        v = res["viol"].setdefault(sig, [0, None])
+        v[0] += 1
+        size = len(seq) * 1000 + len(" ".join(opts))
+        if v[1] is None or size < v[1][0]:
+            v[1] = (size, opts, exp_c, bad, str(sc), ec[-300:], e2_textual(seq) + body, body)
+    shutil.rmtree(wd, ignore_errors=True)
+    return res
+
+
+E2_REPLAY = ("$CHIBICC -cc1 -E $(cat opts.txt) -cc1-input m.c m.c > got.txt 2> err.txt || exit 1\n" + CMP + "\n"
+             "$CHIBICC -cc1 -E -cc1-input eq.c eq.c > got.txt 2> err.txt || exit 1\n" + CMP + "\nexit 0")
+
+
+def part_e2(ctx):
+    wd = ctx.mkdir("e2")
+    gtab, gfn = e2_gcc_table(wd)
+    with open(ctx.chibicc, "rb") as f:
+        data = f.read()
+    cand = sorted({m.decode() for m in re.findall(rb"[A-Za-z_][A-Za-z0-9_]{1,63}", data)} | set(gtab) | gfn | {E2_USER})
+    p0, p1 = e2_probe(ctx.chibicc, wd, cand, 0), e2_probe(ctx.chibicc, wd, cand, 1)
+    if set(p0) != set(p1):
+        raise core.HarnessError("part E2: the two probes see different sets of predefined macros: %s" % sorted(set(p0) ^ set(p1)))
+    if E2_USER in p0:
+        raise core.HarnessError("part E2: the user name %s is predefined" % E2_USER)
+    dynamic = sorted(n for n in p0 if p0[n] != p1[n])
+    reserved = sorted(n for n in p0 if E2_RESERVED.match(n))
+    selfref = sorted(n for n in p0 if p0[n] == [n])           # function-like or self-referential: no visible value
+    judged = sorted(n for n in p0 if n not in dynamic and n not in reserved and n not in selfref)
+    ctab = {n: p0[n] for n in p0 if n not in dynamic and n not in selfref}
+    if len(judged) < 5:
+        raise core.HarnessError("part E2 vacuous: only %d predefined macros found by probing %d candidates: %s"
+                                % (len(judged), len(cand), judged))
+    classes = [("not-reserved-name", lambda n, v: not n.startswith("_")),
+               ("value-1", lambda n, v: n.startswith("_") and v == ["1"]),
+               ("other-integer-value", lambda n, v: n.startswith("_") and len(v) == 1 and E2_INT.match(v[0]) and v != ["1"]),
+               ("non-integer-value", lambda n, v: n.startswith("_") and v and not (len(v) == 1 and E2_INT.match(v[0]))),
+               ("empty-value", lambda n, v: n.startswith("_") and not v)]
+    alpha, alpha_cls = [], {}
+    for cname, pred in classes:
+        for n in judged:
+            if pred(n, p0[n]):
+                alpha.append(n)
+                alpha_cls[cname] = n
+                break
+    alpha_all = alpha + [E2_USER]
+    forms = lambda n: [("D", n, None), ("D", n, "7"), ("U", n, None)]
+    opts = [o for n in alpha_all for o in forms(n)] + [("D", E2_USER, alpha[0])]
+    L = 2 if ctx.tier == "quick" else 3
+    cases = []
+    for n in judged:                                  # every single request over every judged predefined name
+        for o in forms(n):
+            for sep in (False, True):
+                cases.append(((o,), sep, ()))
+    for k in range(0, L + 1):
+        for seq in itertools.product(opts, repeat=k):
+            cases.append((seq, False, tuple(alpha_all)))
+    static = set(ctab)
+    ntask = core.NPROC * 2
+    tasks = [(ctx.chibicc, os.path.join(wd, "t%d" % i), cases[i::ntask], ctab, gtab, static, ctx.deadline - 15)
+             for i in range(ntask)]
+    keys = ["n", "judged", "gcc_disagree", "undef", "model_mismatch", "timeouts", "predefined_changed"]
+    agg = dict.fromkeys(keys, 0)
+    outcomes, viol, gex, mex = set(), {}, None, None
+    for r in core.pmap(e2_task, tasks):
+        for k in keys:
+            agg[k] += r[k]
+        outcomes |= r["outcomes"]
+        gex = gex or r["gcc_disagree_ex"]
+        mex = mex or r["model_mismatch_ex"]
+        if r["cut"] and ctx.exhaustive:
+            ctx.incomplete("part E2: deadline reached; the option sequences judged so far are reported")
+        for sig, (cnt, ex) in r["viol"].items():
+            v = viol.setdefault(sig, [0, ex])
+            v[0] += cnt
+            if ex[0] < v[1][0]:
+                v[1] = ex
+    for sig, (cnt, ex) in sorted(viol.items()):
+        size, o, exp, got, st, err, eq, body = ex
+        ctx.violation("C10|options|" + sig,
+                      "options %s must act like the lines\n%sat the top of the file: expected %s, got %s (status %s)"
+                      % (" ".join(o), eq[:len(eq) - len(body)], " ".join(exp), " ".join(got or []), st),
+                      files={"m.c": body, "eq.c": eq, "opts.txt": " ".join(o) + "\n", "expected.txt": " ".join(exp) + "\n",
+                             "observed.txt": "status=%s\n%s\n%s\n" % (st, " ".join(got or []), err)},
+                      replay=E2_REPLAY)
+        for _ in range(cnt - 1):
+            ctx.violation("C10|options|" + sig, "")
+    if mex:
+        raise core.HarnessError("part E2: options and directives-in-file agree with each other but not with the model "
+                                "built from the probed macro table (%d cases), e.g. %s: model %s, chibicc %s" % ((agg["model_mismatch"],) + mex))
+    if agg["gcc_disagree"] > agg["n"] // 10:
+        raise core.HarnessError("part E2: model and gcc disagree on %d of %d cases, e.g. %s: model %s gcc %s"
+                                % ((agg["gcc_disagree"], agg["n"]) + gex))
+    if agg["timeouts"]:
+        ctx.incomplete("part E2: %d cases timed out (machine load) and were not judged" % agg["timeouts"])
+    elif ctx.exhaustive and (agg["judged"] < 200 or len(outcomes) < 10 or not agg["predefined_changed"]):
+        raise core.HarnessError("part E2 vacuous: %s" % agg)
+    ctx.cover(e2_cases=agg["n"], e2_judged=agg["judged"], e2_distinct_expected_streams=len(outcomes),
+              e2_cases_changing_a_predefined_macro=agg["predefined_changed"],
+              e2_candidate_names_probed=len(cand), e2_predefined_found=len(p0), e2_predefined_judged=judged,
+              e2_not_judged_6_10_8_names=reserved, e2_not_judged_dynamic=dynamic, e2_not_judged_no_visible_value=selfref,
+              e2_sequence_alphabet=alpha_cls, e2_max_options=L, oracle_disagreements=agg["gcc_disagree"],
+              skipped_undefined=agg["undef"], traces_validated_against_impl=agg["judged"],
+              e2_rule="predefined macro set probed from the binary (identifier-like strings of the executable + gcc -dM "
+                      "names through #ifdef probes); -DN / -DN=7 / -UN (joined and separate argument) over every judged "
+                      "predefined name; every sequence of <= %d requests over one predefined name per class + a user "
+                      "name (+ -DU=N); expected = the same #define/#undef lines at the top of the file (model over the "
+                      "probed table and the binary itself on that file; model validated per case against gcc with gcc's "
+                      "-dM table); names of 6.10.8 and dynamic macros are not judged" % L)
+    ctx.sample({"part": "E2", "options": e2_argv((("U", alpha[0], None), ("D", alpha[-1], "7")), False),
+                "same_directives_in_file": e2_textual((("U", alpha[0], None), ("D", alpha[-1], "7"))),
+                "body": e2_body([alpha[0], alpha[-1]], {alpha[0]})})
+
+
 def run(ctx):
     import time
     quick = ctx.tier == "quick"
@@ -1925,8 +2910,8 @@ def run(ctx):
     n = int(os.environ.get("C10_N", 5))                  # full alphabet; C10_N=6 is ~25 M sequences (~80 CPU-minutes)
     plan = [("A", lambda: part_a(ctx, n, 0 if quick else 6, 3 if quick else 4, 4 if quick else 5, 1 if quick else 2,
                                        4, 4 if quick else 5)), ("B", lambda: part_b(ctx)),
-            ("C", lambda: part_c(ctx)), ("C2", lambda: part_c2(ctx)), ("D", lambda: part_d(ctx)), ("D2", lambda: part_d2(ctx)),
-            ("E", lambda: part_e(ctx))]
+            ("C", lambda: part_c(ctx)), ("C2", lambda: part_c2(ctx)), ("C3", lambda: part_c3(ctx)), ("D", lambda: part_d(ctx)), ("D2", lambda: part_d2(ctx)), ("D3", lambda: part_d3(ctx)),
+            ("E", lambda: part_e(ctx)), ("E2", lambda: part_e2(ctx))]
     secs = {}
     # the cheap parts first so that a deadline can only cut the big sequence enumeration short
     for name, fn in sorted(plan, key=lambda p: p[0] == "A"):
